@@ -216,7 +216,7 @@ def wiring(prog, rep):
     bad = [n for n in names if stored.get(n) != P(n)]
     rep.check(not bad, "C16.wiring", f"{TM}.__init__", init.where(), "constructor stores model/transform/inverse/jacobian/precision_factor/random_state under their own names",
               f"constructor arguments stored under another name: {bad}")
-    rep.check(stored.get("n_dim") == ("attr", ("attr", SELF, "model"), "n_dim"), "C16.wiring", f"{TM}.__init__:n_dim", init.where(), "n_dim = model.n_dim", "n_dim must be the base model's")
+    rep.check(stored.get("n_dim") in (("attr", ("attr", SELF, "model"), "n_dim"), ("attr", P("model"), "n_dim")) and stored.get("model") == P("model"), "C16.wiring", f"{TM}.__init__:n_dim", init.where(), "n_dim = model.n_dim", "n_dim must be the base model's")
     for getter in ("get_Windmeier_EW_Hs_S", "get_Nonzero_EW_Hs_S"):
         q = f"virocon.predefined.{getter}"
         fn = prog.func(q)
@@ -232,7 +232,19 @@ def wiring(prog, rep):
 
 
 def given(prog, rep):
-    q = f"{MM}.conditional_sample.get_pdf_like.pdf_like"
+    # the closure that assembles the full points and evaluates the joint density: the nested function of conditional_sample
+    # (at any depth, under any name) that stores into columns M[:, k]
+    cands = []
+    for q_, f_ in prog.functions.items():
+        if q_.startswith(f"{MM}.conditional_sample.") and any(
+                isinstance(n_, ast.Assign) and isinstance(n_.targets[0], ast.Subscript) and isinstance(n_.targets[0].slice, ast.Tuple)
+                and len(n_.targets[0].slice.elts) == 2 and isinstance(n_.targets[0].slice.elts[0], ast.Slice) for n_ in ast.walk(f_.node)) \
+                and not any(q2.startswith(q_ + ".") and q2 != q_ for q2 in prog.functions if any(
+                    isinstance(n_, ast.Assign) and isinstance(n_.targets[0], ast.Subscript) for n_ in ast.walk(prog.functions[q2].node))):
+            cands.append(q_)
+    if len(cands) != 1:
+        raise AnalysisError(f"{MM}.conditional_sample: the closure that assembles the conditional density was not found (candidates {cands})")
+    q = cands[0]
     fn = prog.func(q)
     rep.analysed(fn)
     b = builder(prog, fn, inline=False)
@@ -251,7 +263,7 @@ def given(prog, rep):
         ne = [l for l in pc if l[0] == "not" and l[1][0] == "cmp" and l[1][1] == "==" and k in (l[1][2], l[1][3])]
         if eq and v == P("x"):
             other = eq[0][3] if eq[0][2] == k else eq[0][2]
-            ok_own = k[0] == "idx" and k[2] == "range" and mentions(other, ("param", "dim", fn.parent.parent.qualname)) or mentions(other, P("dim")) or "dim" in show(other)
+            ok_own = k[0] == "idx" and k[2] == "range" and (mentions(other, P("dim")) or "dim" in show(other))
             mat = base
         if ne and v[0] == "sub" and v[2][0] == "counter" and v[2][2] == ("const", 0) and v[2][3] == ("const", 1):
             # the counter must be incremented in the same branch
@@ -468,7 +480,10 @@ def montecarlo(prog, rep):
         x2 = ("call", G("numpy.atleast_2d"), (("call", G("numpy.asarray_chkfinite"), (P("x"),), ()),), ())
         ev = ("sub", x2, ("tuple", (("slice", NONE, NONE, NONE), G("numpy.newaxis"), ("slice", NONE, NONE, NONE))))
         want = ("call", G("numpy.sum"), (("call", G("numpy.all"), (CMP("<=", smp, ev),), (("axis", ("const", -1)),)),), (("axis", ("const", -1)),))
-        ok = smp is not None and num == want and set(alts(smp)) == {P("sample"), ("attr", SELF, "sample")}
+        from vstat.terms import top_alts as _ta
+        choice = {a_ for _l, a_ in _ta(smp)} if smp is not None else set()
+        right_way = all(not l_ or (("isnone", P("sample")) in l_) == (a_ == ("attr", SELF, "sample")) for l_, a_ in (_ta(smp) if smp is not None else []))
+        ok = smp is not None and num == want and choice == {P("sample"), ("attr", SELF, "sample")} and right_way
     rep.check(ok, "C16.mc", f"{q}:fraction", fn.where(rets[-1]), "sum over samples of all_d(sample_d <= x_d) / len(sample), sample = supplied or self.sample", why)
     sp = prog.func(f"{TM}.sample")
     bs_ = builder(prog, sp, inline=False)
